@@ -649,6 +649,11 @@ pub mod verif {
         .await
     }
 
+    /// The membership layer's current view of a running node (what the membership watcher consumes).
+    pub fn members_of(node: &crate::DatacakeNode) -> watch::Receiver<NodeMembership> {
+        node.node.members_watcher()
+    }
+
     /// Public wrapper for [NodeSelectorHandle::set_nodes].
     pub async fn set_nodes(
         handle: &NodeSelectorHandle,
